@@ -39,7 +39,7 @@ def run_checks(d, ids, tier=None):
     ev = tempfile.mkdtemp(prefix="gcv-ev.", dir="/var/tmp")
     env = dict(os.environ, GCV_REPO=d, GCV_EVIDENCE_DIR=ev)
     for i in ids:
-        cmd = ["/verif/check", i] + (["--tier", tier] if tier else [])
+        cmd = [os.environ.get("GCV_CHECK", "/verif/check"), i] + (["--tier", tier] if tier else [])
         r = subprocess.run(cmd, env=env, capture_output=True, text=True)
         txt = "\n".join(l for l in (r.stdout + r.stderr).splitlines() if "conda" not in l)
         out[i] = (r.returncode, txt.replace(d, "<copy>"))
